@@ -75,8 +75,26 @@ CS_KEYS = [('rs', 'received_stations'), ('sn', 'slot_number'), ('uh', 'utc_hour'
            ('si', 'slot_increment'), ('ns', 'num_slots')]
 
 
-def show_cs(d):
-    return ','.join('%s=%s' % (a, show_opt(d.get(k))) for a, k in CS_KEYS)
+def show_cs(d, strict=False):
+    """`strict`: the state a message reports must carry every field (None where it does not apply)"""
+    return ','.join('%s=%s' % (a, show_opt(d[k]) if k in d else ('MISSING' if strict else 'N')) for a, k in CS_KEYS)
+
+
+def _cs_twice(fn, strict=False):
+    """the reported state is the caller's: the first result is taken apart in place (as an application that
+    post-processes it might), then the same question is asked again - the answer must be the same"""
+    r1 = fn()
+    s1 = show_cs(r1, strict)
+    try:
+        for k in list(r1):
+            r1[k] = 63
+        r1.clear()
+    except Exception:  # noqa
+        pass
+    s2 = show_cs(fn(), strict)
+    if s1 != s2:
+        return 'RESULT-DEPENDS-ON-EARLIER-RESULT first=%s second=%s' % (s1, s2)
+    return s2
 
 
 class _Radio(M.CommunicationStateMixin):
@@ -137,17 +155,17 @@ def step(line):
             s, f = U.encode_ascii_6(parse_bits(p[1]))
             return '%s %d' % (s.encode().hex() or '-', f)
         if cmd == 'sotdma':
-            return show_cs(U.get_sotdma_comm_state(int(p[1])))
+            return _cs_twice(lambda: U.get_sotdma_comm_state(int(p[1])))
         if cmd == 'itdma':
-            return show_cs(U.get_itdma_comm_state(int(p[1])))
+            return _cs_twice(lambda: U.get_itdma_comm_state(int(p[1])))
         if cmd == 'commstate_bits':
             m = decode_bits(parse_bits(p[1]))
-            return '%s %s %d %s' % (str(m.is_sotdma).lower(), str(m.is_itdma).lower(),
-                                    m.communication_state_raw, show_cs(m.get_communication_state()))
+            return '%s %s %d %s' % (str(m.is_sotdma).lower(), str(m.is_itdma).lower(), m.communication_state_raw,
+                                    _cs_twice(lambda: decode_bits(parse_bits(p[1])).get_communication_state(), True))
         if cmd == 'commstate':
             m = _Radio(int(p[1]), int(p[2]))
-            return '%s %s %d %s' % (str(m.is_sotdma).lower(), str(m.is_itdma).lower(),
-                                    m.communication_state_raw, show_cs(m.get_communication_state()))
+            return '%s %s %d %s' % (str(m.is_sotdma).lower(), str(m.is_itdma).lower(), m.communication_state_raw,
+                                    _cs_twice(lambda: _Radio(int(p[1]), int(p[2])).get_communication_state(), True))
         return 'BAD-OP'
     except Exception as e:  # noqa
         return err(e)
@@ -227,16 +245,86 @@ class _IdxTbq(ST.TagBlockQueue):
 
 
 class _FakeSock:
-    def __init__(self, chunks):
-        self.chunks = list(chunks)
+    """A scripted socket.  Stream flavour (TCP): the chunks are the pieces in which the bytes become
+    available; `recv(n)` returns at most n bytes of what is available and keeps the rest; between two
+    chunks the line is quiet for an unspecified time - a socket that was given a timeout raises
+    `socket.timeout` there (once), a blocking socket just waits.  Datagram flavour (UDP): every chunk is
+    one datagram, `recv(n)` returns its first n bytes and discards the rest.  When the script is over
+    the peer closes (b'')."""
 
-    def recv(self, n):
-        return self.chunks.pop(0) if self.chunks else b''
+    def __init__(self, chunks, dgram=False):
+        self.chunks = [c for c in chunks]
+        self.dgram = dgram
+        self.avail = b''
+        self.timeout = None
+        self.quiet = False        # the next recv on an empty buffer meets a quiet line first
 
-    def recvfrom(self, n):
-        return (self.recv(n), None)
+    def settimeout(self, t):
+        self.timeout = t
+
+    def gettimeout(self):
+        return self.timeout
+
+    def setblocking(self, flag):
+        self.timeout = None if flag else 0.0
+
+    def setsockopt(self, *a):
+        pass
+
+    def connect(self, addr):
+        pass
+
+    def bind(self, addr):
+        pass
+
+    def fileno(self):
+        return -1
+
+    def recv(self, n=65536, flags=0):
+        import socket as _s
+        peek = bool(flags & _s.MSG_PEEK)
+        if self.dgram:
+            if not self.chunks:
+                return b''
+            d = self.chunks[0]
+            if not peek:
+                self.chunks.pop(0)
+            return d[:n]
+        if not self.avail:
+            if not self.chunks:
+                return b''
+            if self.quiet and self.timeout is not None:
+                self.quiet = False
+                raise _s.timeout('timed out')
+            self.avail = self.chunks.pop(0)
+        out = self.avail[:n]
+        if not peek:
+            self.avail = self.avail[n:]
+            if not self.avail:
+                self.quiet = True
+        return out
+
+    def recvfrom(self, n=65536, flags=0):
+        return (self.recv(n, flags), ('127.0.0.1', 1))
+
+    def recv_into(self, buf, nbytes=0, flags=0):
+        d = self.recv(nbytes or len(buf), flags)
+        buf[:len(d)] = d
+        return len(d)
+
+    def recvfrom_into(self, buf, nbytes=0, flags=0):
+        return (self.recv_into(buf, nbytes, flags), ('127.0.0.1', 1))
+
+    def shutdown(self, how):
+        pass
 
     def close(self):
+        pass
+
+    def __enter__(self):
+        return self
+
+    def __exit__(self, *a):
         pass
 
 
@@ -356,17 +444,30 @@ def run_unindexed(make_stream, tbq):
 
 
 def make_socket_stream(chunks, q, cls=None):
+    """the reader classes are built by their own constructors (so that whatever they do to their socket when
+    connecting / binding is in force), on a scripted socket"""
     cls = cls or ST.SocketStream
     # an earlier connection that was closed in the middle of a line (its carry-over must die with it)
-    d = ST.SocketStream.__new__(ST.SocketStream)
-    ST.Stream.__init__(d, _FakeSock([b'!AIVDM,1,1,,A,15M67FC000G?ufbE`FepT@3n00Sa,0*5C\r\n!AIVDM,1,1,,B,1decoy']), tbq=None)
+    d = ST.SocketStream(_FakeSock([b'!AIVDM,1,1,,A,15M67FC000G?ufbE`FepT@3n00Sa,0*5C\r\n!AIVDM,1,1,,B,1decoy']), tbq=None)
     try:
         list(d.read())
     except Exception:  # noqa
         pass
-    s = cls.__new__(cls)
-    ST.Stream.__init__(s, _FakeSock(chunks), tbq=q)
-    return s
+    if cls is ST.SocketStream:
+        return cls(_FakeSock(chunks), tbq=q)
+    made = []
+
+    def fake_socket(family=-1, kind=-1, *a, **k):
+        import socket as _s
+        made.append(_FakeSock(chunks, dgram=(kind == _s.SOCK_DGRAM)))
+        return made[-1]
+
+    real = ST.socket
+    ST.socket = fake_socket
+    try:
+        return cls('127.0.0.1', 9, tbq=q)
+    finally:
+        ST.socket = real
 
 
 SOCKET_CLASSES = [ST.SocketStream, ST.TCPConnection, ST.UDPReceiver]
